@@ -3,7 +3,9 @@ package main
 // Coq term printers for the pkg/backup structs (constructors of Model/Archive.v).
 
 import (
+	"encoding/hex"
 	"errors"
+	"strings"
 
 	"github.com/WuKongIM/WuKongIM/internal/verifh/vh"
 	"github.com/WuKongIM/WuKongIM/pkg/backup"
@@ -21,6 +23,19 @@ func str(s string) string {
 		}
 	}
 	return `(sx "` + s + `")`
+}
+
+// hexb renders a byte string like vh.Hex, in pieces of at most 1500 bytes (hxs) when long.
+func hexb(b []byte) string {
+	const piece = 1500
+	if len(b) <= piece {
+		return vh.Hex(b)
+	}
+	var parts []string
+	for i := 0; i < len(b); i += piece {
+		parts = append(parts, `"`+hex.EncodeToString(b[i:min(i+piece, len(b))])+`"%string`)
+	}
+	return "(hxs [" + strings.Join(parts, "; ") + "])"
 }
 
 func pCD(d backup.ChunkDescriptor) string {
